@@ -1,7 +1,7 @@
 import GS.Model.BfUnique
-import GS.Props.C11_Bf
+import GS.Props.C11_BfBase
 /-!
-# C11/C12 — `bf.Unique` with more than 4 names (`uniqueRec`) means "exactly one"
+# C11/C12 — `uniqueRec` (what `bf.Unique` becomes where it must hold) means "exactly one"
 
 * `natDims_*` : the integer grid dimensions are `⌊√n + ½⌋` and `⌈√n⌉` (characterised without
   reals), and they satisfy `DimsOk` (what `uniqueRec` needs) for every `n ≥ 5`;
@@ -289,9 +289,6 @@ theorem grid (L C : Nat) (bs : List Bool) (hC : 0 < C) (hfit : bs.length ≤ L *
 
 theorem eval_keyVar (m : Key → Bool) (k : Key) : eval m (keyVar k) = m k := rfl
 
-theorem map_eval_keyVar (m : Key → Bool) (vars : List Key) : (vars.map keyVar).map (eval m) = vars.map m := by
-  rw [List.map_map]; rfl
-
 theorem evalAny_pick (m : Key → Bool) (f : Nat → Bool) : ∀ (vars : List Key) (p : Nat),
     evalAny m ((pick f p vars).map keyVar) = anyFrom f p (vars.map m) := by
   intro vars
@@ -396,6 +393,84 @@ theorem uniqueRecF_fuel (dims : Nat → Nat × Nat) (nm : Bool → Nat → List 
         rw [ih f' _ (by rw [dummyKeys_length]; omega) (by rw [dummyKeys_length]; omega),
           ih f' _ (by rw [dummyKeys_length]; omega) (by rw [dummyKeys_length]; omega)]
 
+/-! ### the variables of `uniqueRec vars`: those of `vars` and line / column dummies; no `unique` node -/
+
+theorem isFK_dummyKey (nm : Bool → Nat → List Key → Nat) (t : Bool) (vars : List Key) (i : Nat) :
+    isFK (dummyKey nm t vars i) = true := by
+  simp [isFK, dummyKey]
+
+theorem all_pick {α} (p : α → Bool) (f : Nat → Bool) : ∀ (xs : List α) (q : Nat), xs.all p = true → (pick f q xs).all p = true := by
+  intro xs
+  induction xs with
+  | nil => intro q _; simp [pick]
+  | cons x xs ih =>
+    intro q h
+    simp only [List.all_cons, Bool.and_eq_true] at h
+    simp only [pick]
+    split
+    · simp only [List.all_cons, Bool.and_eq_true]; exact ⟨h.1, ih _ h.2⟩
+    · exact ih _ h.2
+
+theorem eq_allK (p : Key → Bool) (a b : F) (ha : allK p a = true) (hb : allK p b = true) : allK p (Bf.eq a b) = true := by
+  simp [Bf.eq, allK, allKs, ha, hb]
+
+theorem eq_noU (a b : F) (ha : noU a = true) (hb : noU b = true) : noU (Bf.eq a b) = true := by
+  simp [Bf.eq, noU, noUs, ha, hb]
+
+theorem dummyKeys_all_isFK (nm : Bool → Nat → List Key → Nat) (t : Bool) (vars : List Key) (k : Nat) :
+    (dummyKeys nm t vars k).all isFK = true := by
+  simp only [dummyKeys, List.all_eq_true, List.mem_map]
+  rintro _ ⟨i, _, rfl⟩
+  exact isFK_dummyKey nm t vars i
+
+/-- every variable of `uniqueRec vars` is a formula-level variable (`isFK`) when those of `vars` are -/
+theorem uniqueRecF_allK (dims : Nat → Nat × Nat) (nm : Bool → Nat → List Key → Nat) :
+    ∀ (fuel : Nat) (vars : List Key), vars.all isFK = true → allK isFK (uniqueRecF dims nm fuel vars) = true := by
+  intro fuel
+  induction fuel with
+  | zero => intro vars h; exact uniqueSmallV_allK isFK vars h
+  | succ fuel ih =>
+    intro vars h
+    simp only [uniqueRecF]
+    split
+    · exact uniqueSmallV_allK isFK vars h
+    · simp only [allK, allKs_append, allKs, Bool.and_true, Bool.and_eq_true]
+      refine ⟨⟨?_, ?_⟩, ih _ (dummyKeys_all_isFK nm false vars _), ih _ (dummyKeys_all_isFK nm true vars _)⟩
+      · unfold lineEqs
+        rw [allKs_map]
+        intro i _
+        apply eq_allK
+        · exact isFK_dummyKey nm false vars i
+        · simp only [allK, allKs_keyVar]; exact all_pick _ _ _ _ h
+      · unfold colEqs
+        rw [allKs_map]
+        intro i _
+        apply eq_allK
+        · exact isFK_dummyKey nm true vars i
+        · simp only [allK, allKs_keyVar]; exact all_pick _ _ _ _ h
+
+/-- `uniqueRec vars` contains no `unique` node -/
+theorem uniqueRecF_noU (dims : Nat → Nat × Nat) (nm : Bool → Nat → List Key → Nat) :
+    ∀ (fuel : Nat) (vars : List Key), noU (uniqueRecF dims nm fuel vars) = true := by
+  intro fuel
+  induction fuel with
+  | zero => intro vars; exact uniqueSmallV_noU vars
+  | succ fuel ih =>
+    intro vars
+    simp only [uniqueRecF]
+    split
+    · exact uniqueSmallV_noU vars
+    · simp only [noU, noUs_append, noUs, Bool.and_true, Bool.and_eq_true]
+      refine ⟨⟨?_, ?_⟩, ih _, ih _⟩
+      · unfold lineEqs
+        rw [noUs_map]
+        intro i _
+        exact eq_noU _ _ rfl (by simp only [noU]; exact noUs_keyVar _)
+      · unfold colEqs
+        rw [noUs_map]
+        intro i _
+        exact eq_noU _ _ rfl (by simp only [noU]; exact noUs_keyVar _)
+
 /-! ### (→) every model of `uniqueRec` has exactly one of `vars` true -/
 
 /-- **Soundness of `uniqueRec`.** For any naming of the dummy variables (injective or not) and
@@ -489,7 +564,7 @@ inductive D where
 mutual
 def D.name (nm : Bool → Nat → List Key → Nat) : D → Key
   | .base n => (n, false)
-  | .node t i g => (nm t i (D.names nm g), true)
+  | .node t i g => dummyKey nm t (D.names nm g) i
 def D.names (nm : Bool → Nat → List Key → Nat) : List D → List Key
   | [] => []
   | d :: ds => D.name nm d :: D.names nm ds
@@ -515,11 +590,12 @@ mutual
 theorem D.name_inj (nm : Bool → Nat → List Key → Nat) (hnm : NameInj nm) :
     ∀ d d' : D, D.name nm d = D.name nm d' → d = d'
   | .base n, .base n', h => by simp only [D.name, Prod.mk.injEq] at h; rw [h.1]
-  | .base n, .node t i g, h => by simp [D.name] at h
-  | .node t i g, .base n, h => by simp [D.name] at h
+  | .base n, .node t i g, h => by simp [D.name, dummyKey] at h
+  | .node t i g, .base n, h => by simp [D.name, dummyKey] at h
   | .node t i g, .node t' i' g', h => by
-      simp only [D.name, Prod.mk.injEq, and_true] at h
-      obtain ⟨h1, h2, h3⟩ := hnm _ _ _ _ _ _ h
+      simp only [D.name, dummyKey, Prod.mk.injEq, and_true] at h
+      have h' : nm t i (D.names nm g) = nm t' i' (D.names nm g') := by omega
+      obtain ⟨h1, h2, h3⟩ := hnm _ _ _ _ _ _ h'
       rw [h1, h2, D.names_inj nm hnm g g' h3]
 theorem D.names_inj (nm : Bool → Nat → List Key → Nat) (hnm : NameInj nm) :
     ∀ g g' : List D, D.names nm g = D.names nm g' → g = g'
@@ -699,10 +775,12 @@ example : (natDims 7 = (3, 3)) ∧ ([0, 1, 2, 3, 4, 5, 6].map (fun n => ((n, fal
   everything else false — is reported unsatisfiable by `bf.Solve` (`line-0-…` must be true for
   the first group and false for the second). With `_` instead of `-` in the names, `Solve` finds
   the model. Within one call of `Unique` on names without `-` the naming is injective.
-* **(←) is about the formula at top level (positive position).** Under a negation the dummy
-  variables are no longer existentially quantified the right way: `Not(Unique(p,q,r,s,t))` with
-  `p` alone true is satisfiable for `bf.Solve` (all dummies false) although exactly one name is
-  true (finding "C11 Not(Unique ≥ 5)", already recorded).
+* **(←) is about the expansion in positive position.** Under a negation the dummy variables would
+  no longer be existentially quantified the right way (before the repair `Not(Unique(p,q,r,s,t))`
+  with `p` alone true was satisfiable for `bf.Solve`, finding "C11 Not(Unique ≥ 5)"). Since the
+  repair `Unique` is a node of its own and `nnf` only calls `uniqueRec` where the group must hold
+  (`unique.nnf`); where it must not hold it uses `unique.negation()`, without dummies
+  (`GS/Props/C11_Bf.lean`: `nnf_sound`, `nnf_complete`).
 * `bf.Solve` returns the `line-…` / `col-…` variables in its model map (`cnf.solve` copies all of
   `vars.pb`, and `litValue` registers every `lit` there, dummy flag or not); `Dimacs` filters them.
 -/
